@@ -91,14 +91,43 @@ def vol(bounds):
     return v
 
 
+MUTATIONS = []   # filled by the purity wrappers below; read (and cleared) by impl()
+
+
+def snapshot(pc):
+    return [(tuple(p.bounds), p.pattern.A.copy(), p.pattern.b.copy()) for p in pc]
+
+
+def same_snapshot(a, b):
+    return len(a) == len(b) and all(x[0] == y[0] and np.array_equal(x[1], y[1]) and np.array_equal(x[2], y[2]) for x, y in zip(a, b))
+
+
+def pure(name, f):
+    """a predicate must not modify what it is asked about: template and schedule are deep-copied before the call and
+    compared after it (numpy views of the scheduler's working schedule make an in-place edit corrupt the search)"""
+    def g(t, s):
+        bt, bs = snapshot(t), snapshot(s)
+        r = f(t, s)
+        at, as_ = snapshot(t), snapshot(s)
+        if not same_snapshot(bt, at) or not same_snapshot(bs, as_):
+            j = next((i for i, (x, y) in enumerate(zip(bs, as_)) if not np.array_equal(x[1], y[1])), None)
+            MUTATIONS.append(f"{name} modified its argument" + (
+                f": operand {j} of the schedule had A={bs[j][1].tolist()} before and A={as_[j][1].tolist()} after the call"
+                if j is not None else " (template, bounds or bias)"))
+        return r
+    return g
+
+
 def mk_checks(specs):
-    from snaxc.ir.dart.scheduler import is_memory_flexible_enough, is_pure_output_stationary
+    from snaxc.ir.dart.scheduler import is_memory_flexible_enough, is_output_channel_stationary, is_pure_output_stationary
     out = []
     for c in specs:
         if c[0] == "pos":
-            out.append(is_pure_output_stationary)
+            out.append(pure("is_pure_output_stationary", is_pure_output_stationary))
         elif c[0] == "mem":
-            out.append(lambda t, s, sizes=list(c[1]): is_memory_flexible_enough(t, s, sizes))
+            out.append(pure("is_memory_flexible_enough", lambda t, s, sizes=list(c[1]): is_memory_flexible_enough(t, s, sizes)))
+        elif c[0] == "ocs":
+            out.append(pure("is_output_channel_stationary", lambda t, s, ch=c[1]: is_output_channel_stationary(t, s, ch)))
         else:
             raise ValueError(c)
     return out
@@ -753,16 +782,22 @@ def gen_matching_pair(rng, tier):
     return t, s
 
 
-def gen_checks(rng, nops):
+def gen_checks(rng, nops, rows_last=0):
+    """a random combination (any subset, any order) of the three extra checks of scheduler.py"""
     u = rng.random()
     sizes = [rng.choice([1, 1, 2, 4, 8, 8, 16]) for _ in range(nops if rng.random() < 0.85 else max(0, nops - 1))]
     if u < 0.3:
-        return []
-    if u < 0.55:
-        return [["pos"]]
-    if u < 0.75:
-        return [["mem", sizes]]
-    return [["pos"], ["mem", sizes]]
+        cs = []
+    elif u < 0.55:
+        cs = [["pos"]]
+    elif u < 0.75:
+        cs = [["mem", sizes]]
+    else:
+        cs = [["pos"], ["mem", sizes]]
+    if rows_last >= 1 and rng.random() < 0.35:
+        # is_output_channel_stationary on a channel dim the last operand has (so that it cannot raise)
+        cs.insert(rng.randint(0, len(cs)), ["ocs", rng.randrange(min(rows_last, 2))])
+    return cs
 
 
 def gen_backtrack_case(rng, tier, kind="backtrack"):
@@ -782,11 +817,41 @@ def gen_backtrack_case(rng, tier, kind="backtrack"):
         s = {"bounds": [s["bounds"][i] for i in keep],
              "ops": [{"A": [[row[i] for i in keep] for row in o["A"]], "b": o["b"]} for o in s["ops"]]}
     k = 1 if rng.random() < 0.9 else rng.choice([0, 2, 3])
-    return {"kind": kind, "t": t, "s": s, "k": k, "checks": gen_checks(rng, len(s["ops"]))}
+    return {"kind": kind, "t": t, "s": s, "k": k,
+            "checks": gen_checks(rng, len(s["ops"]), len(s["ops"][-1]["A"]) if s["ops"] else 0)}
+
+
+def sparse_bounds(rng, n):
+    """many loops, almost all of extent 1, the few live ones with DIFFERENT extents and one of them at index >= 8"""
+    live = {rng.randrange(8, n)} | set(rng.sample(range(n), rng.choice([0, 1, 1, 2, 3])))
+    exts = rng.sample([2, 3, 4, 5, 6, 8], len(live)) if len(live) <= 6 else [2] * len(live)
+    bounds = [1] * n
+    for i, e in zip(sorted(live, key=lambda _: rng.random()), exts):
+        bounds[i] = e
+    return bounds
+
+
+def gen_sparse_sched(rng):
+    n = rng.randint(9, 14)
+    bounds = sparse_bounds(rng, n)
+    ops = []
+    for _ in range(rng.randint(1, 3)):
+        r = rng.choice([1, 2, 2, 3])
+        ops.append({"A": gen_rows(rng, r, n, [0, 1, 1, 2, 3, 5, 7, -1, 16]), "b": [rng.choice([0, 0, 1, -3]) for _ in range(r)]})
+    return {"bounds": bounds, "ops": ops}
+
+
+def gen_pass_sparse_case(rng):
+    """snax_alu operations over 9-11 loops of which only a few are not unit loops (memref<1x1x..x4x..x6>)"""
+    ops = []
+    for _ in range(rng.choice([1, 1, 2])):
+        n = rng.randint(9, 11)
+        ops.append({"bounds": sparse_bounds(rng, n), "maps": [list(range(n))] * 3})
+    return {"kind": "pass", "acc": "snax_alu", "ops": ops}
 
 
 def gen_xform_case(rng):
-    s = gen_random_sched(rng)
+    s = gen_sparse_sched(rng) if rng.random() < 0.12 else gen_random_sched(rng)
     n = len(s["bounds"])
     d_tile = rng.randint(0, n + 1) if rng.random() < 0.15 else rng.randrange(max(n, 1))
     b = s["bounds"][d_tile] if d_tile < n else 4
@@ -828,6 +893,18 @@ class SchedProp(Prop):
 
     # real code -------------------------------------------------------------------------------
     def impl(self, case):
+        MUTATIONS.clear()
+        out = self._impl(case)
+        if MUTATIONS and isinstance(out, dict):
+            out = dict(out, mutations=sorted(set(MUTATIONS))[:3])   # the model never has this key: also a disagreement
+        return out
+
+    @staticmethod
+    def purity_violations(impl_out):
+        return [{"what": "an extra check is not read-only: " + m, "finding": None}
+                for m in (impl_out.get("mutations", []) if isinstance(impl_out, dict) else [])]
+
+    def _impl(self, case):
         kind = case["kind"]
         if kind == "xform":
             s = mk_sched(case["s"])
@@ -885,7 +962,8 @@ class SchedProp(Prop):
             return {"holds": bool(mk_checks([case["check"]])[0](mk_tmpl(case["t"]), mk_sched(case["s"])))}
         if kind == "ocs":
             from snaxc.ir.dart.scheduler import is_output_channel_stationary
-            return {"holds": bool(is_output_channel_stationary(mk_tmpl(case["t"]), mk_sched(case["s"]), case["ch"]))}
+            f = pure("is_output_channel_stationary", lambda t, s: is_output_channel_stationary(t, s, case["ch"]))
+            return {"holds": bool(f(mk_tmpl(case["t"]), mk_sched(case["s"])))}
         raise ValueError(kind)
 
     # model -----------------------------------------------------------------------------------
@@ -1075,6 +1153,8 @@ class C03(SchedProp):
             yield gen_pass_expr_case(rng)
         for _ in range(60 if tier == "quick" else 1000):
             yield gen_pass_const_case(rng)
+        for _ in range(25 if tier == "quick" else 400):
+            yield gen_pass_sparse_case(rng)
         yield from CONV_PROBES
         for _ in range(10 if tier == "quick" else 150):
             yield gen_pass_conv_case(rng)
@@ -1091,10 +1171,11 @@ class C03(SchedProp):
             yield gen_from_map_case(rng)
             yield gen_pass_expr_case(rng)
             yield gen_pass_const_case(rng)
+            yield gen_pass_sparse_case(rng)
 
     def oracle(self, case, impl_out):
         """The property on the real objects: same multiset of operand-index tuples (numpy enumeration)."""
-        out = []
+        out = self.purity_violations(impl_out)
         kind = case["kind"]
         if kind == "xform":
             s = mk_sched(case["s"])
